@@ -65,6 +65,7 @@ class Sim:
         self._spin_at = None
         self._spin_n = 0
         self.recv_cost_ns = 0  # "slow node": virtual time spent by the client per received datagram
+        self.sched = None  # ThreadSched when caller threads are parked and released one at a time
 
     # ---- counters / probes
     def count(self, key, n=1):
@@ -138,6 +139,9 @@ class Sim:
                 raise OSError(err, "injected send error")
             if self.on_send is not None:
                 self.on_send(ep, serial, data)
+            if self.sched is not None:
+                # a scheduling point while the caller still holds its pooled send buffer
+                self.sched.maybe_yield()
         except OSError:
             raise
         except BaseException as e:  # simulator defect: remember, fail the call
@@ -149,7 +153,10 @@ class Sim:
             ep = self.endpoints[fd]
             ep.nonblocking_seen = nonblocking
             ep.timeout_seen = timeout_ns
-            if not ep.queue and not nonblocking:
+            if not ep.queue and not nonblocking and self.sched is not None:
+                # caller threads: park this one (it keeps its pooled buffer) and let the others run
+                self.sched.park(lambda: bool(ep.queue), self.now + (timeout_ns if timeout_ns else 10**15))
+            elif not ep.queue and not nonblocking:
                 if timeout_ns == 0:
                     # a blocking socket without timeout would block forever
                     deadline = self.now + 10**15
@@ -195,6 +202,9 @@ class Sim:
         ns = int(round(seconds * 1e9))
         extra = self.sleep_overshoot(ns) if self.sleep_overshoot else 0
         self.log("sleep", self.now, ns, extra)
+        if self.sched is not None:
+            self.sched.park(lambda: False, self.now + ns + extra)
+            return
         self.run_until(self.now + ns + extra)
 
     # ---- trace hash
